@@ -18,7 +18,13 @@ import (
 
 // C08 — one SSO request, one outcome; rejected requests leave no trace.
 
+// the other bindings SAML 2.0 and its extensions define: an IdP that does not answer through them must refuse, one
+// that does must follow the same two-outcome rule
+var otherSAMLBindings = []string{"urn:oasis:names:tc:SAML:2.0:bindings:HTTP-POST-SimpleSign", "urn:oasis:names:tc:SAML:2.0:bindings:SOAP", "urn:oasis:names:tc:SAML:2.0:bindings:URI",
+	"urn:oasis:names:tc:SAML:2.0:profiles:holder-of-key:SSO:browser", "urn:oasis:names:tc:SAML:1.0:profiles:browser-post"}
+
 var c08Bindings = []string{spsim.BindPost, spsim.BindRedirect, spsim.BindArtifact, spsim.BindPAOS, "urn:example:binding:unknown", "HTTP-POST",
+	otherSAMLBindings[0], otherSAMLBindings[0], otherSAMLBindings[1], otherSAMLBindings[2], otherSAMLBindings[3], otherSAMLBindings[4],
 	spsim.BindPost + " ", " " + spsim.BindRedirect, "\n\t" + spsim.BindPost + "\n", strings.ToLower(spsim.BindPost), spsim.BindRedirect + "/"}
 
 // randACS draws a consumer list over the given bindings (any index / isDefault mix, unique locations).
@@ -402,7 +408,7 @@ func c08Registration(r *core.Run, idx int, rng *rand.Rand) {
 		answerable = rng.Intn(3) > 0
 		b := []string{spsim.BindPost, spsim.BindRedirect}[rng.Intn(2)]
 		if !answerable {
-			b = []string{spsim.BindArtifact, spsim.BindPAOS, "urn:example:unknown"}[rng.Intn(3)]
+			b = append([]string{spsim.BindArtifact, spsim.BindPAOS, "urn:example:unknown"}, otherSAMLBindings...)[rng.Intn(3+len(otherSAMLBindings))]
 		}
 		d2.ACS = []spsim.ACS{{Binding: b, Location: fmt.Sprintf("https://sp0.example/acs/v%d", version), Index: "0"}}
 		d.ACS = d2.ACS
